@@ -164,6 +164,11 @@ class EPModel(KModel):
             return a0
         if name.endswith('as_mut_slice') and isinstance(a0, Tup):
             return Obj('mutslice', of=a0)
+        if name.split('::')[-1] == 'arr0' and name.startswith('ndarray::') and len(args) == 1:
+            # an owned 0-d array holding the initial value: the scalar buffer
+            return Obj('view', root=Tup([deref_all(args[0])]), rootkind='scalarbuf', shape=Dim([]), lead=None, ones=Rat.const(0))
+        if last == 'into_scalar' and isinstance(a0, Obj) and a0.kind == 'view' and a0.d['rootkind'] == 'scalarbuf' and a0.d['shape'].key() == ():
+            return a0.d['root'].items[0]
         if name == 'std::slice::from_mut' and isinstance(args[0], Ref):
             # a one-element slice over a local: what is written through it lands in that local
             root = Obj('localbuf')
@@ -212,6 +217,22 @@ class EPModel(KModel):
             r = self.dimseq_call(last, a0, args, e)
             if r is not NotImplemented:
                 return r
+        if (last == 'fold' and name.endswith('Iterator>::fold')) or name == 'std::iter::Iterator::fold':
+            if isinstance(a0, Obj) and a0.kind == 'dimseq' and isinstance(a0.d['dim'], Obj) and a0.d['dim'].kind == 'qidx':
+                # `index.slice().iter().fold(view, |v, &idx| v.index_axis_move(Axis(0), idx))`: one inductive step over the components of the
+                # element's own index (as the `for` form below)
+                v0 = deref_all(args[1])
+                if isinstance(v0, Obj) and v0.kind == 'view':
+                    v1 = deref_all(self.interp.apply(args[2], [v0, Ref(ValPlace(Num(Rat.atom('e[k]'))))], e))
+                    if isinstance(v1, Obj) and v1.kind == 'view' and v1 is not v0 and v1.d.get('lead') == 'qidx-partial':
+                        per = v1.d['qdrop'] - v0.d.get('qdrop', Rat.const(0))
+                        total = v0.d.get('qdrop', Rat.const(0)) + per * self.qdim.ndim()
+                        if not (per == Rat.const(1) and total == self.qdim.ndim()):
+                            raise Unsupported("walking down the query axes does not consume exactly the query axes", e)
+                        rest = self.after_query(v1.d['base_shape'], e)
+                        self.events.append(('slice_each_axis', True, True, 'by indexing each query axis at the element\'s own position'))
+                        return Obj('view', root=v1.d['root'], rootkind=v1.d['rootkind'], shape=rest, lead='qidx', ones=Rat.const(0))
+                    raise Unsupported("fold over the components of the query index with a step that yields %r" % (v1,), e)
         if name in ('std::iter::Iterator::try_for_each', 'std::iter::Iterator::for_each') and isinstance(a0, Obj) and \
                 a0.kind in ('indexed_iter', 'query_iter', 'query_zip', 'query_map'):
             return self.query_each(a0, args[1], last == 'try_for_each', e)
@@ -310,7 +331,9 @@ class EPModel(KModel):
             return self.ndarr_call(last, a0, args, e)
         if isinstance(a0, Obj) and a0.kind == 'view':
             return self.view_call(last, a0, args, e)
-        if last == 'zeros' and isinstance(a0, Dim):
+        if last in ('zeros', 'from_elem', 'ones', 'default') and isinstance(a0, Dim):
+            # a freshly allocated owned array of that shape (its initial content is irrelevant to the rules built on this model:
+            # what the strategies write is R9.8 / R14.3 / R17.8)
             return Obj('ndarr', name='alloc%d' % len(self.events), shape=a0, role='alloc')
         return NotImplemented
 
